@@ -14,6 +14,11 @@ from .common import (GEOM, DIE, ALLOC, NETLIST, MODULE, YREAD, YWRITE, UTILS, KE
 from .C04 import reader_keys
 
 FS_KEYWORDS = "tools/floorset_parser/floor_set_manager/utils/keywords.py"
+from framelint.canon import canon_function as _canon_function_expanded
+
+def canon_function(fi, model=None, opts=None):   # rules of this file match shapes: look through every local
+    return _canon_function_expanded(fi, model, opts, expand=True)
+
 
 
 def _all_attr_loads(f) -> set[str]:
